@@ -87,7 +87,7 @@ func (s *Sys) defaultExp() int64 {
 
 // Durations used by the alphabet.
 const (
-	durEX     = 2 * time.Second
+	durEX     = 2300 * time.Millisecond // EX travels as (fractional) seconds on the wire paths
 	durPX     = 1500 * time.Millisecond
 	// deliberately not whole seconds: Expire and Lease travel as (fractional) seconds on some
 	// wire paths and as milliseconds on others
@@ -179,7 +179,7 @@ func (s *Sys) Apply(e Ev) []Fail {
 			case "PX":
 				o.PX = durPX
 			case "EXAT":
-				o.EXAT = (now + durEX).Truncate(time.Second) + time.Second // whole seconds on the wire
+				o.EXAT = (now + durEX).Truncate(time.Millisecond) // absolute, fractional seconds on the wire
 			case "PXAT":
 				o.PXAT = (now + durPX).Truncate(time.Millisecond)
 			}
